@@ -556,10 +556,13 @@ def compile_files(cp, layout):
     for k, f in enumerate(cp["files"]):
         tag = "//go:build mage\n// +build mage\n\n" if (layout != "magefiles" or cp["tagged"][k]) else ""
         out[sub + f] = (tag + "package main\n\nimport \"fmt\"\n\nfunc init() { fmt.Println(\"INIT %s\") }\n\n// T%d is a target.\nfunc T%d() {}\n" % (f, k, k))
+        if k == 0:
+            out[sub + f] = out[sub + f].replace('import "fmt"', 'import (\n\t"fmt"\n\t"os"\n)') + (
+                "\n// Where prints the path of the running executable.\nfunc Where() {\n\tp, _ := os.Executable()\n\tfmt.Println(\"EXE \" + p)\n}\n")
     return out
 
 
-def run_compile(ctx, mage, wrap, cp, layout, order, base):
+def run_compile(ctx, mage, wrap, cp, layout, order, base, repeat=False):
     files = compile_files(cp, layout)
     names = list(files)
     if order == "reverse":
@@ -581,17 +584,105 @@ def run_compile(ctx, mage, wrap, cp, layout, order, base):
     if layout == "dash-d":
         args = ["-d", d] + args
         cwd = os.path.dirname(d)
-    r = mage.run(cwd, args + ["-compile", outp], env={"GOFLAGS": "-mod=mod -trimpath", "VERIF_C18_ARGV": argvf},
-                 cache=os.path.join(os.path.dirname(d), "cache"), timeout=600)
-    res = {"layout": layout, "order": order, "base": base, "rc": r["rc"], "err": r["err"][-400:], "entries": entries, "argv": None, "sha1": None, "init": None}
-    if r["rc"] == 0 and os.path.exists(outp):
+    env = {"GOFLAGS": "-mod=mod -trimpath", "VERIF_C18_ARGV": argvf}
+    cache = os.path.join(os.path.dirname(d), "cache")
+    kept = os.path.join(mdir, MAINFILE)
+
+    def compile_once(keep=True):
+        """one `mage [-keep] -compile out.bin` process: rc, digest of the kept generated source, digest of the output, usage text"""
+        if os.path.exists(kept):
+            os.remove(kept)
+        r = mage.run(cwd, args + (["-keep"] if keep else []) + ["-compile", outp], env=env, cache=cache, timeout=600)
+        o = {"rc": r["rc"], "err": r["err"][-400:], "src": None, "bin": None, "usage": None, "keep": keep}
+        if os.path.exists(kept):
+            o["src"] = hashlib.sha1(open(kept, "rb").read()).hexdigest()
+            os.remove(kept)
+        if r["rc"] == 0 and os.path.exists(outp):
+            o["bin"] = hashlib.sha1(open(outp, "rb").read()).hexdigest()
+            o["usage"] = mage.run(cwd, ["-h", "where"], exe=outp, timeout=60)["out"].strip()
+        return o
+
+    first = compile_once(keep=False)          # the plain way: the generated file is removed again
+    res = {"layout": layout, "order": order, "base": base, "rc": first["rc"], "err": first["err"], "entries": entries, "argv": None,
+           "sha1": first["bin"], "init": None, "first": first, "repeats": []}
+    if first["rc"] == 0 and os.path.exists(outp):
         blocks = open(argvf).read().split("--\n") if os.path.exists(argvf) else []
         if blocks:
             res["argv"] = ["OUT" if a == outp else a for a in blocks[-1].splitlines()]
-        res["sha1"] = hashlib.sha1(open(outp, "rb").read()).hexdigest()
         rr = mage.run(cwd, ["-l"], exe=outp, timeout=60)
         res["init"] = [l[5:] for l in rr["out"].splitlines() if l.startswith("INIT ")]
+        if repeat:
+            # the output path is occupied: by the binary of an earlier run, by an unrelated file, by a symbolic link
+            victim = os.path.join(os.path.dirname(d), "victim.bin")
+            binary = open(outp, "rb").read()
+            def occupy(how):
+                for q in (outp, victim):
+                    if os.path.lexists(q):
+                        os.remove(q)
+                if how == "earlier-binary":
+                    with open(outp, "wb") as f:
+                        f.write(binary)
+                    os.chmod(outp, 0o755)
+                elif how == "unrelated-file":
+                    with open(outp, "w") as f:
+                        f.write("notes, not a binary\n")
+                else:
+                    with open(victim, "wb") as f:
+                        f.write(binary)
+                    os.chmod(victim, 0o755)
+                    os.symlink(victim, outp)
+            for how in ("earlier-binary", "unrelated-file", "symlink"):
+                for rep in (0, 1):
+                    occupy(how)
+                    o = compile_once(keep=(rep == 0))
+                    if rep == 0 and how == "earlier-binary":
+                        res["first"]["src"] = res["first"]["src"] or o["src"]      # the reference for the generated source
+                    o["occupied_by"], o["rep"] = how, rep
+                    res["repeats"].append(o)
     return res
+
+
+def run_cache_attrs(ctx, mage, cp):
+    """the cache entry as a function of (contents, cache directory): for cache directories with different attributes, two
+    processes (`mage where`, then the same with MAGEFILE_HASHFAST=1) and the listing of the directory after each"""
+    files = compile_files(cp, "plain")
+    root = os.path.join(ctx.tmp, "cacheattr_" + cp["name"])
+    d = os.path.join(root, "proj")
+    for rel, text in files.items():
+        q = os.path.join(d, rel)
+        os.makedirs(os.path.dirname(q), exist_ok=True)
+        with open(q, "w") as f:
+            f.write(text)
+    variants = [("0700", 0o700), ("0755", 0o755), ("0775", 0o775), ("0777", 0o777), ("1777", 0o1777), ("symlink", None), ("with space", 0o755), ("not-yet-there", None), ("dir-spellings", 0o755)]
+    if os.geteuid() == 0:
+        variants.append(("other-uid", 0o755))
+    out = []
+    for label, mode in variants:
+        cdir = os.path.join(root, "cache " + label if label == "with space" else "cache_" + label)
+        real = cdir
+        if label == "symlink":
+            real = os.path.join(root, "cache_symlink_target")
+            os.makedirs(real)
+            os.symlink(real, cdir)
+        elif label != "not-yet-there":
+            os.makedirs(cdir)
+            os.chmod(cdir, mode)
+            if label == "other-uid":
+                os.chown(cdir, 65534, 65534)
+        obs = {"variant": label, "runs": []}
+        plan = [(d, [], None), (d, [], {"MAGEFILE_HASHFAST": "1"})]
+        if label == "dir-spellings":      # the magefile directory named in three ways
+            plan = [(d, [], None), (root, ["-d", "proj"], None), (ctx.tmp, ["-d", d], None)]
+        for cwd_, pre, envx in plan:
+            r = mage.run(cwd_, pre + ["where"], env=envx, cache=cdir, timeout=300)
+            exe = [l[4:] for l in r["out"].splitlines() if l.startswith("EXE ")]
+            listing = sorted(os.listdir(real)) if os.path.isdir(real) else None
+            obs["runs"].append({"rc": r["rc"], "err": r["err"][-300:], "hashfast": envx is not None,
+                                "exe_base": os.path.basename(exe[0]) if exe else None,
+                                "exe_in_cache_dir": (os.path.realpath(os.path.dirname(exe[0])) == os.path.realpath(real)) if exe else None,
+                                "listing": listing})
+        out.append(obs)
+    return out
 
 
 def run(ctx):
@@ -676,8 +767,10 @@ def run(ctx):
         for layout in LAYOUTS:
             for order in ("listed", "reverse"):
                 for base in bases:
-                    tasks.append((("c", ci), "C", lambda cp=cp, layout=layout, order=order, base=base: run_compile(ctx, mage, wrap, cp, layout, order, base)))
-    tasks.sort(key=lambda t: t[1] not in ("H", "C"))          # the histories are the longest tasks: start them first
+                    rep = order == "listed" and base == bases[0]        # the occupied-output repetitions: once per layout
+                    tasks.append((("c", ci), "C", lambda cp=cp, layout=layout, order=order, base=base, rep=rep: run_compile(ctx, mage, wrap, cp, layout, order, base, rep)))
+        tasks.append((("c", ci), "K", lambda cp=cp: run_cache_attrs(ctx, mage, cp)))
+    tasks.sort(key=lambda t: t[1] not in ("H", "C", "K"))          # the histories are the longest tasks: start them first
     ctx.log("projects created; %d tasks" % len(tasks))
     import time as _t
     def timed(t):
@@ -832,7 +925,7 @@ def run(ctx):
                         "aliases": proj["aliases"][:4], "default": proj["default"]})
     # ---- oracle 6: the compiled output over layouts x creation orders x file systems
     citems, citem_info = [], []
-    compile_runs = 0
+    compile_runs = occupied_runs = cache_runs = 0
     raw_not_sorted = 0
     for ci, cp in enumerate(compile_projects):
         runs = by.get(("c", ci), {}).get("C", [])
@@ -865,6 +958,48 @@ def run(ctx):
                 n_oracle += 1
                 ctx.violation({"kind": "oracle", "clause": "`mage -compile` (GOFLAGS=-trimpath) output is not byte-identical across creation orders / file systems for layout %s" % layout,
                                "sha1_by_run": tb}, case=ccase_)
+        # repeated -compile to an occupied output path
+        for x in runs:
+            for how in ("earlier-binary", "unrelated-file", "symlink"):
+                a, b = [o for o in x.get("repeats", []) if o["occupied_by"] == how] or (None, None)
+                if a is None:
+                    continue
+                occupied_runs += 2
+                key = lambda o: (o["rc"], o["bin"], o["usage"])
+                clause = None
+                if key(a) != key(b):
+                    clause = "two `mage -keep -compile out.bin` processes with the output path occupied the same way (%s; one with -keep, one without) differ in (exit status, binary, usage text)" % how
+                else:
+                    for o in (a, b):
+                        if o["rc"] == 0 and ((o["bin"], o["usage"]) != (x["first"]["bin"], x["first"]["usage"]) or (o["src"] and o["src"] != x["first"]["src"])):
+                            clause = ("`mage -keep -compile out.bin` with the output path occupied (%s) generates another main source / binary / usage text than "
+                                      "the first compile of the same magefiles to the free path" % how)
+                if clause and n_oracle < 5:
+                    n_oracle += 1
+                    ctx.violation({"kind": "oracle", "clause": clause, "layout": x["layout"], "first": {k: x["first"][k] for k in ("rc", "src", "bin", "usage")},
+                                   "repetitions": [{k: o[k] for k in ("rc", "src", "bin", "usage", "err")} for o in (a, b)]}, case=ccase_)
+        # the cache entry over cache directories with different attributes
+        kobs = by.get(("c", ci), {}).get("K") or []
+        names = {}
+        for v in kobs:
+            cache_runs += len(v["runs"])
+            for k, rr in enumerate(v["runs"]):
+                if rr["rc"] != 0 or rr["exe_base"] is None:
+                    build_failures.append("cache directory %s: `mage where` failed: %s" % (v["variant"], rr["err"]))
+                    continue
+                names.setdefault(rr["exe_base"], []).append(v["variant"])
+                clause = None
+                if not rr["exe_in_cache_dir"]:
+                    clause = "the compiled magefile does not run from the cache directory (variant %s): the cache entry is not at <cache dir>/<name>" % v["variant"]
+                elif rr["listing"] != [rr["exe_base"]]:
+                    clause = "after `mage where` the cache directory (variant %s) holds %r, not exactly the entry that ran (%s)" % (v["variant"], rr["listing"], rr["exe_base"])
+                if clause and n_oracle < 5:
+                    n_oracle += 1
+                    ctx.violation({"kind": "oracle", "clause": clause, "variant": v["variant"], "runs": v["runs"]}, case=ccase_)
+                    break
+        if len(names) > 1 and n_oracle < 5:
+            n_oracle += 1
+            ctx.violation({"kind": "oracle", "clause": "the name of the cache entry for the same magefiles differs between cache directories / processes", "names": names}, case=ccase_)
         for x in runs:
             citems.append("{| cc_out := \"OUT\"; cc_ldflags := %s; cc_entries := %s; cc_magefiles := %s; cc_argv := %s |}" % (
                 coq_str(cp["ldflags"]), coq_list([coq_str(e) for e in x["entries"]]), coq_list([coq_str(f) for f in cp["files"]]),
@@ -890,12 +1025,14 @@ def run(ctx):
         raise BuildError("; ".join(build_failures)[:3000])
     cov["cross_project_generations"] = cross_gens
     cov["compile_runs"] = compile_runs
+    cov["compiles_to_an_occupied_output_path"] = occupied_runs
+    cov["cache_directory_attribute_runs"] = cache_runs
     cov["compile_matrix"] = {"layouts": LAYOUTS, "creation_orders": ["listed", "reverse"], "file_systems": ["TMPDIR"] + (["/dev/shm"] if shm else []),
                              "runs_whose_raw_directory_order_is_not_name_order": raw_not_sorted}
     cov["history_generations"] = hist_gens
     cov["history_states"] = hist_cov
     cov["histories"] = sum(1 for p in projects if p.get("history") and not p.get("error"))
-    cov["evaluations"] = tot_runs + tot_reps + hist_gens + cross_gens + compile_runs
+    cov["evaluations"] = tot_runs + tot_reps + hist_gens + cross_gens + compile_runs + occupied_runs + cache_runs
     cov["distinct_nontrivial"] = nontriv
     cov["rule"] = ("one evaluation = one generation of the main file (a fresh `mage -keep -l` process, or one in-process parse.PrimaryPackage+sort(+render) repetition); "
                    "distinct = generated projects; non-trivial = at least one competing pair (equal package names among named or among root imports, one path with two aliases, or two non-empty package comments)")
